@@ -34,6 +34,7 @@ class FS:
         self.torn_max = 16      # torn lengths explored: 0..torn_max, len//2, len-1 (and "everything")
         self.dead = False
         self.oplog = []         # kinds of the mutating operations performed (for evidence)
+        self.hook = None        # called at every file-system access (C12: pre-emption windows at file granularity)
 
     # -- fault machinery
     def arm(self, crash_at, torn=0):
@@ -69,6 +70,8 @@ class FS:
 
     def touch(self, kind, p):
         self.alive()
+        if self.hook is not None:
+            self.hook()
         self.touched.append((kind, str(p)))
         return self.norm(p)
 
@@ -313,6 +316,41 @@ class ShimPath:
 
     def with_name(self, name):
         return self.parent / name
+
+    @property
+    def suffix(self):
+        n = self.name
+        i = n.rfind(".")
+        return n[i:] if 0 < i < len(n) - 1 else ""
+
+    @property
+    def stem(self):
+        n = self.name
+        i = n.rfind(".")
+        return n[:i] if 0 < i < len(n) - 1 else n
+
+    def with_suffix(self, suffix):
+        if suffix and (not suffix.startswith(".") or suffix == "."):
+            raise ValueError("Invalid suffix %r" % suffix)
+        if not self.name:
+            raise ValueError("%r has an empty name" % self)
+        return self.parent / (self.stem + suffix)
+
+    @property
+    def parts(self):
+        return tuple((["/"] if self._s.startswith("/") else []) + [c for c in self._s.split("/") if c])
+
+    def is_file(self):
+        return self.fs.touch("stat", self._s) in self.fs.files
+
+    def is_absolute(self):
+        return self._s.startswith("/")
+
+    def joinpath(self, *others):
+        return ShimPath(self._s, *others)
+
+    def __lt__(self, o):
+        return self._s < o._s
 
 
 def _glob(fs):
